@@ -45,7 +45,9 @@ META = {
     "C08": dict(engine="shipsim", design_ref="DESIGN.md 6/C08", note=_TB + "; deadlocks are shown by two identical stack dumps of a blocked ship-go goroutine",
                 text="Structured mutations and arbitrary bytes delivered in every handshake state reachable by a valid prefix, both roles; arbitrary "
                      "websocket frames and raw bytes into a live connection; hostile TXT records, names, addresses and ports through both mDNS entry "
-                     "paths; no panic, no wedge, no receive loop blocked for more than a virtual minute. Thorough tier adds coverage-guided native fuzzing.",
+                     "paths; no panic, no wedge, no receive loop blocked for more than a virtual minute; plus a real-time run of the SHIP layer (timers, user "
+                     "actions and transport errors truly concurrent with the handlers, state changes stretched by a slow logger; no panic, no deadlock). "
+                     "Thorough tier adds coverage-guided native fuzzing.",
                 technique=_PBT + "structure-aware mutation fuzzing of SHIP messages per reachable state; crash/wedge oracle"),
     "C09": dict(engine="shipsim", design_ref="DESIGN.md 6/C09", note=_TB,
                 text="Generated (stored, presented) SHIP ID pairs and message orders in the access-methods phase; oracle on final state and "
